@@ -1,38 +1,53 @@
 import GV.Lib.Line
 import GV.Model.Collateral
 /-
-  op: coll <era> <redeemers> <fee> <pct> <max> <ret|-> <n> c1 t1 c2 t2 ...
-      ret = "coin:tok"
+  op: coll <era> <redform> <fee> <pct> <max> <ret|-> <n> out1 … outn
+      era ∈ alonzo|babbage|conway|dijkstra
+      redform: 0 none | c constructed | L decoded legacy array form | M decoded map form
+      out = coin/tokspec ; tokspec = "-" (no multi-asset part) | "e" (empty bundle) | id:qty,id:qty,…
   out: acc=<0|1> insuff=<0|1> nonada=<0|1> nocoll=<0|1> toomany=<0|1>   (1 = rule passes)
 -/
 namespace GV.Drv.C32
 open GV.Line GV.Model.Collateral
 
-def parseIns : List String → Option (List CIn)
+def parsePairs : List String → Option Bundle
   | [] => some []
-  | c :: t :: rest => do
-    let c ← parseNat? c; let t ← parseNat? t
-    let r ← parseIns rest
-    pure (⟨c, t⟩ :: r)
+  | p :: rest =>
+    match p.splitOn ":" with
+    | [a, q] => do
+      let a ← parseNat? a; let q ← parseNat? q
+      let r ← parsePairs rest
+      pure ((a, q) :: r)
+    | _ => none
+
+def parseTok (s : String) : Option (Option Bundle) :=
+  if s = "-" then some none
+  else if s = "e" then some (some [])
+  else (parsePairs (s.splitOn ",")).map some
+
+def parseOut (s : String) : Option COut :=
+  match s.splitOn "/" with
+  | [c, t] => do let c ← parseNat? c; let t ← parseTok t; pure ⟨c, t⟩
   | _ => none
 
-def parseRet (s : String) : Option (Option CIn) :=
-  if s = "-" then some none else
-  match s.splitOn ":" with
-  | [c, t] => do let c ← parseNat? c; let t ← parseNat? t; pure (some ⟨c, t⟩)
-  | _ => none
+def parseOuts : List String → Option (List COut)
+  | [] => some []
+  | s :: rest => do let o ← parseOut s; let r ← parseOuts rest; pure (o :: r)
 
 def parse (toks : List String) : Option Tx :=
   match toks with
-  | "coll" :: hr :: red :: fee :: pct :: mx :: ret :: n :: rest => do
-    let hr ← (match hr with
+  | "coll" :: era :: red :: fee :: pct :: mx :: ret :: n :: rest => do
+    let hr ← (match era with
       | "alonzo" => some false | "babbage" => some true | "conway" => some true
       | "dijkstra" => some true | _ => none)
-    let red ← parseBool? red
+    let red ← (match red with
+      | "0" => some false | "c" => some true | "L" => some true | "M" => some true | _ => none)
     let fee ← parseNat? fee; let pct ← parseNat? pct; let mx ← parseNat? mx
-    let ret ← parseRet ret; let n ← parseNat? n
-    let ins ← parseIns rest
+    let ret ← (if ret = "-" then some none else (parseOut ret).map some)
+    let n ← parseNat? n
+    let ins ← parseOuts rest
     if ins.length ≠ n then none else
+    if !hr && ret.isSome then none else
     pure { hasReturnField := hr, redeemers := red, fee, pct, maxInputs := mx, ins, ret }
   | _ => none
 
